@@ -9,6 +9,7 @@ import (
 	"github.com/matrix-org/gomatrixserverlib/spec"
 	"github.com/tidwall/gjson"
 	"github.com/tidwall/sjson"
+	"golang.org/x/crypto/ed25519"
 )
 
 type eventV3 struct {
@@ -26,6 +27,14 @@ func (e *eventV3) RoomID() spec.RoomID {
 		panic(fmt.Errorf("RoomID is invalid: %w", err))
 	}
 	return *roomID
+}
+
+// Sign signs the event and returns it. Without this method the one promoted
+// from the embedded eventV2 would return that embedded event, whose room ID
+// and auth event accessors are those of the older event format.
+func (e *eventV3) Sign(signingName string, keyID KeyID, privateKey ed25519.PrivateKey) PDU {
+	e.eventV2.Sign(signingName, keyID, privateKey)
+	return e
 }
 
 func (e *eventV3) AuthEventIDs() []string {
